@@ -162,12 +162,13 @@ def opNameUnique (D : Document) : Bool := nodup (opNames D)
 /-- §5.2.2.1 Lone Anonymous Operation. -/
 def loneAnonymous (D : Document) : Bool := anonCount D = 0 || opCount D = 1
 
+def opSupportedAt (S : Schema) : Definition → Bool
+  | .op kind _ _ _ _ => (S.root (opKindOf kind)).isSome
+  | _ => true
+
 /-- The schema defines a root type for every operation's kind (§3.2.1; without one no field of the
     operation's selection set is defined). -/
-def opTypeSupported (S : Schema) (D : Document) : Bool :=
-  D.all fun
-    | .op kind _ _ _ _ => (S.root (opKindOf kind)).isSome
-    | _ => true
+def opTypeSupported (S : Schema) (D : Document) : Bool := D.all (opSupportedAt S)
 
 /-- Response names selected by a selection set, visiting inline fragments and (each once) named
     fragments: the keys of CollectFields (§6.3.2) as used by §5.2.3.1. -/
@@ -224,23 +225,28 @@ def singleRootSubscription (D : Document) : Bool :=
 
 /-! ## §5.3.1, §5.3.3 Fields -/
 
+/-- "fieldName must be defined on type in scope" for one selection. -/
+def fieldDefinedAt (S : Schema) : Occ → Bool
+  | .field (some p) _ n _ _ _ _ => !isComposite S p || (fieldDef? S p n).isSome
+  | _ => true
+
 /-- §5.3.1 Field Selections on Objects, Interfaces, and Unions Types. -/
-def fieldsDefined (S : Schema) (D : Document) : Bool :=
-  (selOccs S D).all fun
-    | .field (some p) _ n _ _ _ _ => !isComposite S p || (fieldDef? S p n).isSome
-    | _ => true
+def fieldsDefined (S : Schema) (D : Document) : Bool := (selOccs S D).all (fieldDefinedAt S)
+
+def hasSubselection : Option SelSet → Bool
+  | some ss => !ss.sels.isEmpty
+  | none => false
+
+/-- A leaf field has no sub-selection, a composite field has a non-empty one. -/
+def leafOkAt (S : Schema) : Occ → Bool
+  | .field (some p) _ n _ _ _ sel =>
+    (match fieldDef? S p n with
+     | none => true
+     | some d => if isComposite S d.type.base then hasSubselection sel else sel.isNone)
+  | _ => true
 
 /-- §5.3.3 Leaf Field Selections. -/
-def leafSelections (S : Schema) (D : Document) : Bool :=
-  (selOccs S D).all fun
-    | .field (some p) _ n _ _ _ sel =>
-      match fieldDef? S p n with
-      | none => true
-      | some d =>
-        if isComposite S d.type.base then
-          (match sel with | some ss => !ss.sels.isEmpty | none => false)
-        else sel.isNone
-    | _ => true
+def leafSelections (S : Schema) (D : Document) : Bool := (selOccs S D).all (leafOkAt S)
 
 /-! ## §5.3.2 Field Selection Merging -/
 
@@ -437,19 +443,24 @@ def argumentsRequired (S : Schema) (D : Document) : Bool :=
 /-- §5.5.1.1 Fragment Name Uniqueness. -/
 def fragmentNamesUnique (D : Document) : Bool := nodup (fragNames D)
 
-def typeConditions (S : Schema) (D : Document) : List String :=
-  (fragDefs D).map (·.2.1) ++
-  (selOccs S D).filterMap fun
-    | .inline _ (some (t, _)) _ _ => some t
-    | _ => none
+/-- The type condition of an inline fragment names a type of the schema. -/
+def condExistsAt (S : Schema) : Occ → Bool
+  | .inline _ (some (t, _)) _ _ => (S.find t).isSome
+  | _ => true
 
-/-- §5.5.1.2 Fragment Spread Type Existence. -/
+/-- §5.5.1.2 Fragment Spread Type Existence (named fragments and inline fragments). -/
 def fragmentTypesExist (S : Schema) (D : Document) : Bool :=
-  (typeConditions S D).all fun t => (S.find t).isSome
+  (fragDefs D).all (fun f => (S.find f.2.1).isSome) && (selOccs S D).all (condExistsAt S)
+
+/-- The type condition of an inline fragment, when it exists, is a composite type. -/
+def condCompositeAt (S : Schema) : Occ → Bool
+  | .inline _ (some (t, _)) _ _ => (S.find t).isNone || isComposite S t
+  | _ => true
 
 /-- §5.5.1.3 Fragments On Composite Types. -/
 def fragmentsOnComposite (S : Schema) (D : Document) : Bool :=
-  (typeConditions S D).all fun t => (S.find t).isNone || isComposite S t
+  (fragDefs D).all (fun f => (S.find f.2.1).isNone || isComposite S f.2.1) &&
+  (selOccs S D).all (condCompositeAt S)
 
 def spreadNames (S : Schema) (D : Document) : List String :=
   (selOccs S D).filterMap fun
